@@ -45,14 +45,14 @@ theorem mapIds_set (T : Nat) (hT : legalThreshold T = true) (D : DigestFn (r + 1
     (h : MapInvI T D m c.ctr)
     (old : Option Elem) (m' : OMap r) (c' : Ctx) (hr : m.set cfg k v c = .ok (old, m', c')) :
     MapInvI T D m' c'.ctr ∧ m'.rootID = m.rootID ∧ m'.addr = m.addr ∧ c.ctr ≤ c'.ctr ∧ CfgOk cfg T m' ∧
-    m'.count = (if old.isSome then m.count else m.count + 1) := by
+    m'.count = (if old.isSome then m.count else m.count + 1) ∧ m'.ty = m.ty ∧ m'.seed = m.seed := by
   obtain ⟨hids', hrid, hle⟩ := mapIdsOk_set hT hcfg h.1 hk hv c h.2 hr
   have haddr : m'.addr = m.addr := by unfold OMap.addr; rw [hrid]
   rcases C02.set_refines T hT D cfg m hcfg h.1 k hk v hv c h.2.ctxOk with
-    ⟨old2, m2, c2, heq, hold, _, hcnt, hinv, _⟩ | ⟨herr, _⟩
+    ⟨old2, m2, c2, heq, hold, _, hcnt, hinv, _, _, hty, hseed⟩ | ⟨herr, _⟩
   · rw [heq] at hr
     cases hr
-    refine ⟨⟨hinv, hids'⟩, hrid, haddr, hle, ⟨hcfg.1, hcfg.2.1, by rw [hcfg.2.2, haddr]⟩, ?_⟩
+    refine ⟨⟨hinv, hids'⟩, hrid, haddr, hle, ⟨hcfg.1, hcfg.2.1, by rw [hcfg.2.2, haddr]⟩, ?_, hty, hseed⟩
     rw [hcnt, hold]
   · rw [herr] at hr; cases hr
 
@@ -61,7 +61,7 @@ theorem mapIds_remove (T : Nat) (hT : legalThreshold T = true) (D : DigestFn (r 
     (hcfg : CfgOk cfg T m) (k : MKey) (hk : KeyOk T (r + 1) D k) (c : Ctx) (h : MapInvI T D m c.ctr)
     (k0 : MKey) (v0 : Elem) (m' : OMap r) (c' : Ctx) (hr : m.remove cfg k c = .ok (k0, v0, m', c')) :
     MapInvI T D m' c'.ctr ∧ m'.rootID = m.rootID ∧ m'.addr = m.addr ∧ c.ctr ≤ c'.ctr ∧ CfgOk cfg T m' ∧
-    m'.count = m.count - 1 ∧ 1 ≤ m.count := by
+    m'.count = m.count - 1 ∧ 1 ≤ m.count ∧ m'.ty = m.ty ∧ m'.seed = m.seed := by
   obtain ⟨hids', hrid, hle⟩ := mapIdsOk_remove hT hcfg h.1 hk c h.2 hr
   have haddr : m'.addr = m.addr := by unfold OMap.addr; rw [hrid]
   have hs := C02.remove_refines T hT D cfg m hcfg h.1 k hk c h.2.ctxOk
@@ -72,34 +72,36 @@ theorem mapIds_remove (T : Nat) (hT : legalThreshold T = true) (D : DigestFn (r 
     cases hr
   | some w =>
     rw [hd] at hs
-    obtain ⟨k1, m1, c1, heq, _, _, hcnt, hinv, _⟩ := hs
+    obtain ⟨k1, m1, c1, heq, _, _, hcnt, hinv, _, _, hty, hseed⟩ := hs
     rw [heq] at hr
     cases hr
-    refine ⟨⟨hinv, hids'⟩, hrid, haddr, hle, ⟨hcfg.1, hcfg.2.1, by rw [hcfg.2.2, haddr]⟩, hcnt, ?_⟩
+    refine ⟨⟨hinv, hids'⟩, hrid, haddr, hle, ⟨hcfg.1, hcfg.2.1, by rw [hcfg.2.2, haddr]⟩, hcnt, ?_, hty, hseed⟩
     have hmem := mem_of_dictLookup_some h.1.allKeyOk hk hd
     rw [h.1.count_eq]
     exact List.length_pos_of_mem hmem
-    
+
 /-- `PopIterate`: afterwards the map is the empty root data slab under the SAME identifier; the
     allocation counter is unchanged. -/
 theorem mapIds_popIterate (T : Nat) (hT : legalThreshold T = true) (D : DigestFn (r + 1)) (m : OMap r) (c : Ctx)
     (h : MapInvI T D m c.ctr) :
     MapInvI T D (m.popIterate c).2.1 (m.popIterate c).2.2.ctr ∧ (m.popIterate c).2.1.rootID = m.rootID ∧
     (m.popIterate c).2.1.addr = m.addr ∧ (m.popIterate c).2.2.ctr = c.ctr ∧
-    (m.popIterate c).2.1.slabIds = [m.rootID] ∧ (m.popIterate c).2.1.count = 0 := by
+    (m.popIterate c).2.1.slabIds = [m.rootID] ∧ (m.popIterate c).2.1.count = 0 ∧
+    (m.popIterate c).2.1.ty = m.ty ∧ (m.popIterate c).2.1.seed = m.seed := by
   obtain ⟨h1, h2, h3⟩ := mapIdsOk_pop c h.2
   obtain ⟨_, _, hcnt, hinv, _⟩ := C02.pop_refines T hT D m h.1 c h.2.ctxOk
-  exact ⟨⟨hinv, h1⟩, h2, by unfold OMap.addr; rw [h2], h3, slabIds_pop m c, hcnt⟩
+  exact ⟨⟨hinv, h1⟩, h2, by unfold OMap.addr; rw [h2], h3, slabIds_pop m c, hcnt, rfl, rfl⟩
 
 /-- `SetType`: only the type information changes. -/
 theorem mapIds_setType (T : Nat) (D : DigestFn (r + 1)) (m : OMap r) (ty : Nat) (c : Ctx)
     (h : MapInvI T D m c.ctr) :
     MapInvI T D (m.setType ty c).1 (m.setType ty c).2.ctr ∧ (m.setType ty c).1.rootID = m.rootID ∧
     (m.setType ty c).1.addr = m.addr ∧ (m.setType ty c).2.ctr = c.ctr ∧
-    (m.setType ty c).1.toList = m.toList ∧ (m.setType ty c).1.count = m.count ∧ (m.setType ty c).1.ty = ty := by
+    (m.setType ty c).1.toList = m.toList ∧ (m.setType ty c).1.count = m.count ∧ (m.setType ty c).1.ty = ty ∧
+    (m.setType ty c).1.seed = m.seed := by
   obtain ⟨h1, h2, h3⟩ := mapIdsOk_setType ty c h.2
-  obtain ⟨g1, g2, g3, g4, _⟩ := mapInv_setType h.1 ty c
-  exact ⟨⟨g1, h1⟩, h2, rfl, h3, g2, g3, g4⟩
+  obtain ⟨g1, g2, g3, g4, g5⟩ := mapInv_setType h.1 ty c
+  exact ⟨⟨g1, h1⟩, h2, rfl, h3, g2, g3, g4, g5⟩
 
 /-- ANY request of a history (`E2EM.stepM`: set / remove / popIterate / setType; a REJECTED request —
     collision limit reached for a new key, key not found — leaves map and counter as they were):
@@ -110,31 +112,32 @@ theorem mapIds_step (T : Nat) (hT : legalThreshold T = true) (D : DigestFn (r + 
     (op : E2EM.MOp) (hop : op.Ok T D) :
     MapInvI T D (E2EM.stepM cfg st op).1 (E2EM.stepM cfg st op).2.ctr ∧
     (E2EM.stepM cfg st op).1.rootID = st.1.rootID ∧ (E2EM.stepM cfg st op).1.addr = st.1.addr ∧
-    st.2.ctr ≤ (E2EM.stepM cfg st op).2.ctr ∧ CfgOk cfg T (E2EM.stepM cfg st op).1 := by
+    st.2.ctr ≤ (E2EM.stepM cfg st op).2.ctr ∧ CfgOk cfg T (E2EM.stepM cfg st op).1 ∧
+    (E2EM.stepM cfg st op).1.seed = st.1.seed := by
   obtain ⟨m, c⟩ := st
   cases op with
   | set k v =>
     simp only [E2EM.stepM]
     cases hr : m.set cfg k v c with
-    | error e => exact ⟨h, rfl, rfl, Nat.le_refl _, hcfg⟩
+    | error e => exact ⟨h, rfl, rfl, Nat.le_refl _, hcfg, rfl⟩
     | ok res =>
       obtain ⟨old, m', c'⟩ := res
-      obtain ⟨a1, a2, a3, a4, a5, _⟩ := mapIds_set T hT D cfg m hcfg k hop.1 v hop.2 c h old m' c' hr
-      exact ⟨a1, a2, a3, a4, a5⟩
+      obtain ⟨a1, a2, a3, a4, a5, _, _, a8⟩ := mapIds_set T hT D cfg m hcfg k hop.1 v hop.2 c h old m' c' hr
+      exact ⟨a1, a2, a3, a4, a5, a8⟩
   | remove k =>
     simp only [E2EM.stepM]
     cases hr : m.remove cfg k c with
-    | error e => exact ⟨h, rfl, rfl, Nat.le_refl _, hcfg⟩
+    | error e => exact ⟨h, rfl, rfl, Nat.le_refl _, hcfg, rfl⟩
     | ok res =>
       obtain ⟨k0, v0, m', c'⟩ := res
-      obtain ⟨a1, a2, a3, a4, a5, _⟩ := mapIds_remove T hT D cfg m hcfg k hop c h k0 v0 m' c' hr
-      exact ⟨a1, a2, a3, a4, a5⟩
+      obtain ⟨a1, a2, a3, a4, a5, _, _, _, a9⟩ := mapIds_remove T hT D cfg m hcfg k hop c h k0 v0 m' c' hr
+      exact ⟨a1, a2, a3, a4, a5, a9⟩
   | popIterate =>
     obtain ⟨a1, a2, a3, a4, _⟩ := mapIds_popIterate T hT D m c h
-    exact ⟨a1, a2, a3, Nat.le_of_eq a4.symm, ⟨hcfg.1, hcfg.2.1, by rw [hcfg.2.2]; exact a3.symm⟩⟩
+    exact ⟨a1, a2, a3, Nat.le_of_eq a4.symm, ⟨hcfg.1, hcfg.2.1, by rw [hcfg.2.2]; exact a3.symm⟩, rfl⟩
   | setType ty =>
     obtain ⟨a1, a2, a3, a4, _⟩ := mapIds_setType T D m ty c h
-    exact ⟨a1, a2, a3, Nat.le_of_eq a4.symm, ⟨hcfg.1, hcfg.2.1, by rw [hcfg.2.2]; exact a3.symm⟩⟩
+    exact ⟨a1, a2, a3, Nat.le_of_eq a4.symm, ⟨hcfg.1, hcfg.2.1, by rw [hcfg.2.2]; exact a3.symm⟩, rfl⟩
 
 /-- What the identifier clause gives: the older separate predicates (`MIdsOk`: pairwise different,
     `E2EM.MAddrOk`: one owner address, `CtxOk`: at or below the counter), the hypothesis `leafIdsOk`
@@ -150,8 +153,9 @@ theorem mapIdsOk_implies (m : OMap r) (c : Ctx) (h : MapIdsOk m c.ctr) :
 /-- EVERY history of requests issued against a new map (any legal threshold `T`, ANY digest
     function, any number of digest levels, any owner address, any initial allocation counter;
     requests that are rejected included): after EVERY prefix of the history the map satisfies the
-    structural invariant AND the identifier clause w.r.t. the current allocation counter, and its
-    root identifier is still the first identifier allocated by `NewMap`. -/
+    structural invariant AND the identifier clause w.r.t. the current allocation counter, its root
+    identifier is still the first identifier allocated by `NewMap`, and its seed is still the seed
+    chosen at creation. -/
 theorem map_history_wellformed (T : Nat) (hT : legalThreshold T = true) (D : DigestFn (r + 1)) (cfg : MCfg)
     (hcT : cfg.T = T) (hcL : cfg.L = r + 1) (ty : Nat) (seedOf : SlabID → Nat) (c0 : Ctx)
     (ops : List E2EM.MOp) (hok : ∀ op ∈ ops, op.Ok T D) (n : Nat) :
@@ -159,23 +163,25 @@ theorem map_history_wellformed (T : Nat) (hT : legalThreshold T = true) (D : Dig
     MapIdsOk (E2EM.runM cfg (OMap.new (r := r) cfg.addr ty seedOf c0) (ops.take n)).1
       (E2EM.runM cfg (OMap.new (r := r) cfg.addr ty seedOf c0) (ops.take n)).2.ctr ∧
     (E2EM.runM cfg (OMap.new (r := r) cfg.addr ty seedOf c0) (ops.take n)).1.rootID = ⟨cfg.addr, c0.ctr + 1⟩ ∧
-    c0.ctr + 1 ≤ (E2EM.runM cfg (OMap.new (r := r) cfg.addr ty seedOf c0) (ops.take n)).2.ctr := by
+    c0.ctr + 1 ≤ (E2EM.runM cfg (OMap.new (r := r) cfg.addr ty seedOf c0) (ops.take n)).2.ctr ∧
+    (E2EM.runM cfg (OMap.new (r := r) cfg.addr ty seedOf c0) (ops.take n)).1.seed = seedOf ⟨cfg.addr, c0.ctr + 1⟩ := by
   have key : ∀ (l : List E2EM.MOp) (st : OMap r × Ctx), (∀ op ∈ l, op.Ok T D) → CfgOk cfg T st.1 →
       MapInvI T D st.1 st.2.ctr →
       MapInvI T D (E2EM.runM cfg st l).1 (E2EM.runM cfg st l).2.ctr ∧
-      (E2EM.runM cfg st l).1.rootID = st.1.rootID ∧ st.2.ctr ≤ (E2EM.runM cfg st l).2.ctr := by
+      (E2EM.runM cfg st l).1.rootID = st.1.rootID ∧ st.2.ctr ≤ (E2EM.runM cfg st l).2.ctr ∧
+      (E2EM.runM cfg st l).1.seed = st.1.seed := by
     intro l
     induction l with
-    | nil => intro st _ _ h; exact ⟨h, rfl, Nat.le_refl _⟩
+    | nil => intro st _ _ h; exact ⟨h, rfl, Nat.le_refl _, rfl⟩
     | cons op l ih =>
       intro st hl hcfg h
-      obtain ⟨a1, a2, _, a4, a5⟩ := mapIds_step T hT D cfg st hcfg h op (hl op (by simp))
-      obtain ⟨b1, b2, b3⟩ := ih (E2EM.stepM cfg st op) (fun o ho => hl o (by simp [ho])) a5 a1
-      exact ⟨b1, b2.trans a2, Nat.le_trans a4 b3⟩
+      obtain ⟨a1, a2, _, a4, a5, a6⟩ := mapIds_step T hT D cfg st hcfg h op (hl op (by simp))
+      obtain ⟨b1, b2, b3, b4⟩ := ih (E2EM.stepM cfg st op) (fun o ho => hl o (by simp [ho])) a5 a1
+      exact ⟨b1, b2.trans a2, Nat.le_trans a4 b3, b4.trans a6⟩
   obtain ⟨h1, h2, h3, h4, _⟩ := mapIds_new (r := r) T hT D cfg.addr ty seedOf c0
-  obtain ⟨g1, g2, g3⟩ := key (ops.take n) (OMap.new (r := r) cfg.addr ty seedOf c0)
+  obtain ⟨g1, g2, g3, g4⟩ := key (ops.take n) (OMap.new (r := r) cfg.addr ty seedOf c0)
     (fun o ho => hok o (List.mem_of_mem_take ho)) ⟨hcT, hcL, h3.symm⟩ h1
-  exact ⟨g1.1, g1.2, g2.trans h2, by rw [← h4]; exact g3⟩
+  exact ⟨g1.1, g1.2, g2.trans h2, by rw [← h4]; exact g3, g4⟩
 
 /-- The same for the histories run against the storage state machine (`E2EM.newS` / `runS`, the
     setting of `E2EM.mgood_runS` and `E2EM.map_rep_history`): the map component of the run satisfies
@@ -438,5 +444,51 @@ theorem tree_ownership (T : Nat) (D : DigestFn (r + 1)) (m : OMap r) (ctr : Nat)
     fun id hid => ⟨h.2.ne_undef id hid, (h.2.2 id hid).2⟩, m.rootID_mem_slabIds⟩
 
 example := tree_ownership 256 MapExample.D2 MapExample.run.1 _ C05.run_invI
+
+/-! ### the C09 map theorems from the ONE preserved invariant `MapInvI` (as the array theorems of
+    `Props/C09.lean` are stated from `ArrInv`): the hypotheses `MIdsOk` and `CtxOk` of
+    `set_effects_complete`, `remove_effects_complete`, `pop_releases_all`, `allocated_ids_fresh` are
+    discharged, and the invariant is returned for the result. -/
+
+theorem set_effects_complete_I (T : Nat) (hT : legalThreshold T = true) (D : DigestFn (r + 1)) (cfg : MCfg)
+    (m : OMap r) (hcfg : CfgOk cfg T m) (k : MKey) (hk : KeyOk T (r + 1) D k) (v : Elem) (hv : ValueOkM v)
+    (c : Ctx) (h : MapInvI T D m c.ctr)
+    (old : Option Elem) (m' : OMap r) (c' : Ctx) (hr : m.set cfg k v c = .ok (old, m', c')) :
+    c'.eff = c.eff ++ newEffects c c' ∧ MEffectsComplete m m' (newEffects c c') (newCreated c c') ∧
+    (∀ addr id, Eff.alloc addr id ∈ newEffects c c' → id ∉ m.slabIds ∧ c.ctr < id.idx ∧ id.idx ≤ c'.ctr) ∧
+    MapInvI T D m' c'.ctr ∧ m'.rootID = m.rootID := by
+  obtain ⟨h1, h2⟩ := set_effects_complete T hT D cfg m hcfg h.1 h.2.mIdsOk k hk v hv c h.2.ctxOk old m' c' hr
+  have h3 := allocated_ids_fresh T hT D cfg m hcfg h.1 k hk v hv c h.2.ctxOk old m' c' hr
+  obtain ⟨h4, h5, _⟩ := C05.mapIds_set T hT D cfg m hcfg k hk v hv c h old m' c' hr
+  refine ⟨h1, h2, ?_, h4, h5⟩
+  intro addr id hmem
+  obtain ⟨a1, a2, a3⟩ := h3 addr id hmem
+  exact ⟨by rw [OMap.slabIds_eq_keys]; exact a1, a2, a3⟩
+
+theorem remove_effects_complete_I (T : Nat) (hT : legalThreshold T = true) (D : DigestFn (r + 1)) (cfg : MCfg)
+    (m : OMap r) (hcfg : CfgOk cfg T m) (k : MKey) (hk : KeyOk T (r + 1) D k) (c : Ctx) (h : MapInvI T D m c.ctr)
+    (k0 : MKey) (v0 : Elem) (m' : OMap r) (c' : Ctx) (hr : m.remove cfg k c = .ok (k0, v0, m', c')) :
+    c'.eff = c.eff ++ newEffects c c' ∧ MEffectsComplete m m' (newEffects c c') (newCreated c c') ∧
+    MapInvI T D m' c'.ctr ∧ m'.rootID = m.rootID := by
+  obtain ⟨h1, h2⟩ := remove_effects_complete T hT D cfg m hcfg h.1 h.2.mIdsOk k hk c h.2.ctxOk k0 v0 m' c' hr
+  obtain ⟨h4, h5, _⟩ := C05.mapIds_remove T hT D cfg m hcfg k hk c h k0 v0 m' c' hr
+  exact ⟨h1, h2, h4, h5⟩
+
+theorem pop_releases_all_I (T : Nat) (hT : legalThreshold T = true) (D : DigestFn (r + 1)) (m : OMap r) (c : Ctx)
+    (h : MapInvI T D m c.ctr) :
+    MEffectsComplete m (m.popIterate c).2.1 (newEffects c (m.popIterate c).2.2) [] ∧
+    (m.popIterate c).2.1.slabIds = [m.rootID] ∧
+    (∀ id ∈ m.slabIds, id ≠ m.rootID → lastAction (newEffects c (m.popIterate c).2.2) id = some false) ∧
+    MapInvI T D (m.popIterate c).2.1 (m.popIterate c).2.2.ctr ∧ (m.popIterate c).2.2.ctr = c.ctr := by
+  obtain ⟨h1, _, h3⟩ := pop_releases_all T hT D m h.1 c h.2.ctxOk
+  obtain ⟨g1, _, _, g4, g5, _⟩ := C05.mapIds_popIterate T hT D m c h
+  refine ⟨h1, g5, ?_, g1, g4⟩
+  intro id hid hne
+  exact h3 id (by rw [OMap.slabIds_eq_keys] at hid; exact hid) hne
+
+example := set_effects_complete_I 256 MapExample.legal256 MapExample.D2 MapExample.cfg2 MapExample.run.1
+  MapExample.run_good.cfgok (MapExample.key 122) (MapExample.key_ok _) (MapExample.val 0) (MapExample.val_ok _)
+  MapExample.run.2 C05.run_invI
+example := pop_releases_all_I 256 MapExample.legal256 MapExample.D2 MapExample.run.1 MapExample.run.2 C05.run_invI
 
 end Atree.C09Map
